@@ -583,8 +583,12 @@ def run_check(chk, argv):
     coverage.update(chk.extra_evidence())
     ev = {"property_id": P, "tier": tier, "seed": seed, "level": "proof", "coverage": coverage,
           "assumptions": list(chk.assumptions), "wall_s": round(wall, 2), "violations": len(seen_keys) + (1 if rc and not seen_keys else 0)}
-    os.makedirs(EVIDENCE_DIR, exist_ok=True)
-    json.dump(ev, open(os.path.join(EVIDENCE_DIR, P + ".json"), "w"), indent=1, default=str)
+    # evidence/ describes runs against /repo itself; a run pointed at another tree (POX_REPO: seeded / harmless / candidate-fix
+    # experiments) writes its evidence next to the replays instead, so that the committed evidence is never that of a scratch tree
+    evdir = EVIDENCE_DIR if os.path.realpath(REPO) == os.path.realpath("/repo") else os.path.join(VERIF, "replays", "evidence_other_tree")
+    ev["tree"] = os.path.realpath(REPO)
+    os.makedirs(evdir, exist_ok=True)
+    json.dump(ev, open(os.path.join(evdir, P + ".json"), "w"), indent=1, default=str)
     log("%s %s: %d cases (%d corpus), %d model-validated, %d disagreements, %d theorems audited, %.1fs -> exit %d"
         % (P, tier, len(cases), n_corpus, max(validated, 0), len(disagreements), discharged, wall, rc))
     return rc
